@@ -1222,11 +1222,22 @@ fn emit_doc_faults(seed: u64, tier: Tier, unit: u64, sink: &mut dyn FnMut(Plan) 
         if let Ok(tree) = jsonf::parse(&text) {
             jsonf::structured_faults(&tree, &mut go);
         }
-        for _ in 0..nbyte {
-            let pos = rng.below(text.len() as u64) as usize;
-            let choice = rng.below((jsonf::STRUCTURAL_BYTES.len() + 7) as u64) as usize;
-            if let Some(f) = jsonf::byte_fault(&text, pos, choice) {
-                go(f);
+        if tier == Tier::Thorough && text.len() <= 400 {
+            // small documents: EVERY single-byte fault
+            for pos in 0..text.len() {
+                for choice in 0..(jsonf::STRUCTURAL_BYTES.len() + 7) {
+                    if let Some(f) = jsonf::byte_fault(&text, pos, choice) {
+                        go(f);
+                    }
+                }
+            }
+        } else {
+            for _ in 0..nbyte {
+                let pos = rng.below(text.len() as u64) as usize;
+                let choice = rng.below((jsonf::STRUCTURAL_BYTES.len() + 7) as u64) as usize;
+                if let Some(f) = jsonf::byte_fault(&text, pos, choice) {
+                    go(f);
+                }
             }
         }
         if let Some(old) = older {
@@ -1929,7 +1940,8 @@ impl Scenario for C20 {
         serde_json::json!({
             "documents": doc_units(tier),
             "fault_subspaces_enumerated_completely_per_document": ["TRUNC (every byte offset)", "FIELD_DEL", "FIELD_DUP", "VALUE_ALTER (every scalar x every alternative, arrays, enum tags)", "MISDIRECT (every other loader)"],
-            "fault_subspaces_sampled": match tier { Tier::Quick => serde_json::json!(["BYTE (150 per document variant)", "SPLICE (40 offsets per document variant)"]), Tier::Thorough => serde_json::json!(["BYTE (600 per document variant)"]) },
+            "fault_subspaces_sampled": match tier { Tier::Quick => serde_json::json!(["BYTE (150 per document variant)", "SPLICE (40 offsets per document variant)"]), Tier::Thorough => serde_json::json!(["BYTE for documents longer than 400 bytes (600 per document variant); complete (every position x 34 replacements) for shorter ones"]) },
+            "state_abstraction": "(loader, fault kind, outcome class in {error, accepted-but-altered, ok})",
             "fault_subspaces_enumerated_completely_in_thorough_only": ["SPLICE (every offset)"],
             "generation_only_units": call_units(tier),
             "exhaustive_note": "exhaustive per document over the listed sub-spaces; the documents themselves are a seeded sample, hence exhaustive=false overall"
